@@ -8,8 +8,8 @@
     meaning of a pattern under such a binding; it is defined only where the plan can be built:
     every expression mentions only columns of the schema it is evaluated on (the executor resolves
     column references in the child's schema, C17), the two sides of a join have disjoint schemas.
-    Modelled operators: filter, empty, limit, order, topn, window with no function, and the nested
-    loop join of all six types; anything else has no meaning here ([None]) and rules mentioning it
+    Modelled operators: filter, empty, limit, order, topn, window with no function, the nested
+    loop join of all six types, the hash join, the conjunction and the equality of expressions; anything else has no meaning here ([None]) and rules mentioning it
     get no obligation.  No proofs in this file. *)
 From RL Require Export Model.Exec.
 From RL Require Model.Plan.
@@ -39,6 +39,9 @@ Definition and3f (f g : arow -> dv) : arow -> dv :=
            | DBool true, DBool true => DBool true
            | _, _ => DNull
            end.
+(** [=]: NULL when either side is, numbers of different widths compared by value (array/ops.rs cmp!) *)
+Definition eq3f (f g : arow -> dv) : arow -> dv :=
+  fun r => cmp3 (fun c => match c with Eq => true | _ => false end) (f r) (g r).
 Definition digit_of (c : ascii) : option Z :=
   match c with
   | "0"%char => Some 0%Z | "1"%char => Some 1%Z | "2"%char => Some 2%Z | "3"%char => Some 3%Z | "4"%char => Some 4%Z
@@ -110,6 +113,27 @@ Definition join_sem (ty : string) (on : arow -> dv) (lc rc : list nat) (L R : li
   else if String.eqb ty "anti" then Some (MRel lc (filter (fun l => negb (existsb (fun r => holdsf on (l ++ r)) R)) L))
   else None.
 
+(** ** hash join: every left key is evaluated on the LEFT row alone, every right key on the RIGHT row alone
+       ([restrict]: the part of the joined row that comes from that input); a pair matches when no key is NULL and
+       the keys are equal as DataValues after the cast of mixed integer widths to the wider one done by
+       executor::build ([wide], see Model/Exec.v [wide_keys]); a residual condition is evaluated on the joined row.
+       HashJoinExecutor takes no residual condition (build asserts that it is the literal true); the semi / anti
+       variants do. *)
+Definition restrict (cols : list nat) (r : arow) : arow := filter (fun kv => memb (fst kv) cols) r.
+Definition key_match1 (a b : dv) : bool := negb (is_null a) && negb (is_null b) && dv_eqb (wide a) (wide b).
+Definition kexpr := (list nat * (arow -> dv))%type.
+Fixpoint keys_matchb (lk rk : list kexpr) (l r : arow) : bool :=
+  match lk, rk with
+  | [], [] => true
+  | a :: lk', b :: rk' => key_match1 (snd a l) (snd b r) && keys_matchb lk' rk' l r
+  | _, _ => false
+  end.
+Definition hash_on (lc rc : list nat) (lk rk : list kexpr) (on : arow -> dv) : arow -> dv :=
+  and3f (fun x => DBool (keys_matchb lk rk (restrict lc x) (restrict rc x))) on.
+Definition is_true_const (s : list nat) (f : arow -> dv) : bool :=
+  match s with [] => match f [] with DBool true => true | _ => false end | _ => false end.
+Definition takes_residual (ty : string) : bool := String.eqb ty "semi" || String.eqb ty "anti".
+
 (** ** the meaning of an operator applied to the meanings of its arguments; [None] where the plan
        cannot be built (an expression mentions a column its input does not have) *)
 Definition keys_in (ks : list okey) (c : list nat) : bool := forallb (fun k => inclb (fst (fst k)) c) ks.
@@ -134,8 +158,23 @@ Definition op_sem (op : string) (vs : list sem) : option sem :=
         end
     | _ => None
     end
+  else if String.eqb op "hashjoin" then
+    match vs with
+    | [MLit ty; MExpr s on; MList lks; MList rks; MRel lc L; MRel rc R] =>
+        match exprs_of lks, exprs_of rks with
+        | Some lk, Some rk =>
+            if Nat.eqb (List.length lk) (List.length rk)
+               && forallb (fun e => inclb (fst e) lc) lk && forallb (fun e => inclb (fst e) rc) rk
+               && inclb s (lc ++ rc) && disjb lc rc && (takes_residual ty || is_true_const s on)
+            then join_sem ty (hash_on lc rc lk rk on) lc rc L R else None
+        | _, _ => None
+        end
+    | _ => None
+    end
   else match vs with
-  | [MExpr s f; MExpr t g] => if String.eqb op "and" then Some (MExpr (s ++ t) (and3f f g)) else None
+  | [MExpr s f; MExpr t g] =>
+      if String.eqb op "and" then Some (MExpr (s ++ t) (and3f f g))
+      else if String.eqb op "=" then Some (MExpr (s ++ t) (eq3f f g)) else None
   | [MRel c _] => if String.eqb op "empty" then Some (MRel c []) else None
   | [MExpr s f; MRel c rows] =>
       if String.eqb op "filter" then if inclb s c then Some (MRel c (filter (holdsf f) rows)) else None else None
